@@ -23,12 +23,15 @@ made progress.
 **What is proved, what is not.**  Proved: when a dispatch poll goes back to waiting, *no in-flight request has a due
 timer* (`C05_dispatch_idle_not_late`) — every timer that was due was handled in that poll: its request failed with
 `DeadlineExceeded`, or (time still to be armed) re-armed for a later tick — and the wake-up is armed no later than the
-earliest remaining tick.  Not proved here: the monitor form `C05_monitor_full_Statement`, which measures lateness
-against `ceil_ms (max deadline sent)`.  It used to be **false** because a re-arm rounded up a second time (for deadlines
-beyond the clamp the final tick could lie 1 ms per re-arm after the millisecond tick of the deadline); since the lateness
-is measured from the entry's exact due time (`Entry.dueAt`, repo ae850d0) that counterexample is gone
-(`C05_rearm_late_witness_fixed`), and `TInv.due` (`Lemmas/ClientInv.lean`: `dueAt + remainder ≤ max deadline now`, timer
-= millisecond ceiling of `dueAt`) is the invariant a proof would start from.
+earliest remaining tick; the pre/post forms (`C05_due_request_gone_exact`, `C05_due_request_gone`); and, on the exact
+invariant `TInv.due` (`Lemmas/ClientInv.lean`: `deadline ≤ dueAt + remainder ≤ max deadline now`, timer = millisecond
+ceiling of `dueAt`; repo ae850d0), the same in terms of deadlines: after an idle poll every in-flight request is before
+the millisecond tick of its deadline unless it was armed after its deadline less than a millisecond ago
+(`C05_idle_deadline_tick`), and a request armed before its deadline is gone after the first idle poll at or after that
+tick (`C05_deadline_passed_gone`).  Not proved: the monitor form.  `C05_monitor_full_Statement` (all scripts) is **false**
+beyond the bound on the clock (`C05_wheel_lag_witness`: the timer-wheel defect surfaces through tarpc after ≈ 430 days);
+with the bound it is kept as `C05_monitor_bounded_Statement` (the former counterexample — a re-arm that rounded up a
+second time — is gone: `C05_rearm_late_witness_fixed`).
 -/
 set_option linter.unusedSimpArgs false
 namespace TarpcModel.Client
@@ -130,18 +133,18 @@ theorem C05_dispatch_idle_not_late (m bufCap tcap : Nat) (coupled : Bool) (ops :
     obtain ⟨hw, t, ht⟩ := hidle.armed d hdm
     exact ⟨hidle.notDue d hdm, hw, t, ht⟩
 
-/-- **C05: not late, pre/post form.**  From every reachable state with a live dispatch (clock below `2^35` ms): if a
-poll of the dispatch leaves it not done (it returned `Pending`), then every request that was in flight and *due* when
-the poll began — its timer tick `w` had passed and nothing of its `remainder` was left after taking off the lateness
-(in particular: `remainder = 0` and `w * 10^6 ≤ now`) — is no longer in flight afterwards: it was failed with
-`DeadlineExceeded` by `poll_expired` in that poll, unless a response for it was read, its write failed, its call was
-cancelled or the connection failed first (each of which also removes it and tells the call).  A due request is never
-re-armed, and no other request can take its id. -/
-theorem C05_due_request_gone (m bufCap tcap : Nat) (coupled : Bool) (ops : List COp)
+/-- **C05: not late, pre/post form (exact lateness).**  From every reachable state with a live dispatch (clock below
+`2^35` ms): if a poll of the dispatch leaves it not done (it returned `Pending`), then every request that was in flight
+and *due* when the poll began — its timer tick `w` had passed and its `remainder` does not exceed the lateness
+`now − dueAt` measured, as the code measures it, from the exact time the timer was due (so `poll_expired` fails it rather
+than re-arming it) — is no longer in flight afterwards: it was failed with `DeadlineExceeded` by `poll_expired` in that
+poll, unless a response for it was read, its write failed, its call was cancelled or the connection failed first (each of
+which also removes it and tells the call).  A due request is never re-armed, and no other request can take its id. -/
+theorem C05_due_request_gone_exact (m bufCap tcap : Nat) (coupled : Bool) (ops : List COp)
     (hT : advSum ops < 2 ^ 35 * nsPerMs) (c : Sys) (hc : c = ops.foldl applyOp (initSys m bufCap tcap coupled))
     (hlive : c.s.dDropped = false ∧ c.s.done = none) (hd : (pollDispatchKeep c.s c.now).done = none)
     (en : Entry) (hen : en ∈ c.s.inflight) (w : Nat) (hw : c.s.timers.Has en.timerKey en.id w)
-    (hdue : w * nsPerMs ≤ c.now) (hrem : en.remainder ≤ c.now - w * nsPerMs) :
+    (hdue : w * nsPerMs ≤ c.now) (hrem : en.remainder ≤ c.now - en.dueAt) :
     ∀ en' ∈ (pollDispatch c.s c.now).inflight, en'.id ≠ en.id := by
   subst hc
   have hf := C16_client_flags
@@ -171,6 +174,73 @@ theorem C05_due_request_gone (m bufCap tcap : Nat) (coupled : Bool) (ops : List 
   rw [e]
   exact pollDispatchKeep_due_gone hcl hi0 hq hrun hd (by rw [← e]; exact hp1) ⟨en, hen, rfl, w, hw, hdue, hrem⟩
 
+/-- **C05: not late, pre/post form.**  The same with the lateness measured from the timer's millisecond tick `w`
+(which is less than a millisecond after `dueAt`, so this hypothesis is the stronger one): in particular every in-flight
+request with `remainder = 0` whose tick has passed is gone after a poll that returns `Pending`. -/
+theorem C05_due_request_gone (m bufCap tcap : Nat) (coupled : Bool) (ops : List COp)
+    (hT : advSum ops < 2 ^ 35 * nsPerMs) (c : Sys) (hc : c = ops.foldl applyOp (initSys m bufCap tcap coupled))
+    (hlive : c.s.dDropped = false ∧ c.s.done = none) (hd : (pollDispatchKeep c.s c.now).done = none)
+    (en : Entry) (hen : en ∈ c.s.inflight) (w : Nat) (hw : c.s.timers.Has en.timerKey en.id w)
+    (hdue : w * nsPerMs ≤ c.now) (hrem : en.remainder ≤ c.now - w * nsPerMs) :
+    ∀ en' ∈ (pollDispatch c.s c.now).inflight, en'.id ≠ en.id := by
+  have hle : en.dueAt ≤ w * nsPerMs := by
+    subst hc
+    exact ((inv_reach m bufCap tcap coupled ops).t.due en hen w hw).2.2.1
+  exact C05_due_request_gone_exact m bufCap tcap coupled ops hT c hc hlive hd en hen w hw hdue (by omega)
+
+/-! ### in terms of deadlines -/
+
+/-- **C05: not late, in terms of the deadline.**  After a dispatch poll that returns `Pending` at clock `now` (live
+dispatch, clock below `2^35` ms), for every request still in flight: *the millisecond tick of its deadline has not been
+reached* (`now < ceil_ms deadline`) — or its timer was armed when its deadline had already passed (`deadline < dueAt`:
+the request was taken off the queue after its deadline, `dueAt` is that instant) less than a millisecond ago
+(`dueAt ≤ now < dueAt + 1 ms`; the timer fires at the next millisecond tick).  This holds for every deadline, however far
+away and however often the timer was re-armed: the exact due time does not drift
+(`C05_timer_is_ceiling_of_due`). -/
+theorem C05_idle_deadline_tick (m bufCap tcap : Nat) (coupled : Bool) (ops : List COp)
+    (hT : advSum ops < 2 ^ 35 * nsPerMs) (c : Sys) (hc : c = ops.foldl applyOp (initSys m bufCap tcap coupled))
+    (hlive : c.s.dDropped = false ∧ c.s.done = none) (hd : (pollDispatchKeep c.s c.now).done = none) :
+    ∀ en ∈ (pollDispatch c.s c.now).inflight,
+      c.now < ceilMs en.ctx.deadline * nsPerMs ∨
+      (en.ctx.deadline < en.dueAt ∧ en.dueAt ≤ c.now ∧ c.now < en.dueAt + nsPerMs) := by
+  intro en hen
+  obtain ⟨-, -, h3, -⟩ := C05_dispatch_idle_not_late m bufCap tcap coupled ops hT c hc hlive hd
+  obtain ⟨w, hw, hlt, -⟩ := h3 en hen
+  have hi1 := inv_reach m bufCap tcap coupled (ops ++ [.pollDispatch])
+  rw [List.foldl_append] at hi1
+  simp only [List.foldl_cons, List.foldl_nil, applyOp] at hi1
+  rw [← hc] at hi1
+  obtain ⟨h1, h2, h3', h4⟩ := hi1.t.due en hen w hw
+  by_cases hle : en.dueAt ≤ en.ctx.deadline
+  · left
+    exact Nat.lt_of_lt_of_le hlt (tick_le_ceil h4 hle)
+  · right
+    refine ⟨by omega, ?_, by omega⟩
+    rcases Nat.le_total en.ctx.deadline c.now with hdn | hdn
+    · rw [Nat.max_eq_right hdn] at h2; omega
+    · rw [Nat.max_eq_left hdn] at h2; omega
+
+/-- **C05: not late, in terms of the deadline (pre/post).**  If a request is in flight when the dispatch is polled at a
+clock `now` at or after the millisecond tick of its deadline, and its timer was armed no later than its deadline
+(`dueAt ≤ deadline`: it was taken off the queue before its deadline), then after a poll that returns `Pending` it is no
+longer in flight: it has been failed with `DeadlineExceeded` in that poll (or completed / cancelled / failed with the
+connection first). -/
+theorem C05_deadline_passed_gone (m bufCap tcap : Nat) (coupled : Bool) (ops : List COp)
+    (hT : advSum ops < 2 ^ 35 * nsPerMs) (c : Sys) (hc : c = ops.foldl applyOp (initSys m bufCap tcap coupled))
+    (hlive : c.s.dDropped = false ∧ c.s.done = none) (hd : (pollDispatchKeep c.s c.now).done = none)
+    (en : Entry) (hen : en ∈ c.s.inflight) (hpast : ceilMs en.ctx.deadline * nsPerMs ≤ c.now)
+    (harmed : en.dueAt ≤ en.ctx.deadline) :
+    ∀ en' ∈ (pollDispatch c.s c.now).inflight, en'.id ≠ en.id := by
+  have hi0 := inv_reach m bufCap tcap coupled ops
+  rw [← hc] at hi0
+  obtain ⟨w, hw, -⟩ := hi0.t.e2t en hen
+  obtain ⟨h1, h2, h3, h4⟩ := hi0.t.due en hen w hw
+  have hdn : en.ctx.deadline ≤ c.now := by
+    exact Nat.le_trans (le_ceil_tick _) hpast
+  rw [Nat.max_eq_right hdn] at h2
+  exact C05_due_request_gone_exact m bufCap tcap coupled ops hT c hc hlive hd en hen w hw
+    (Nat.le_trans (tick_le_ceil h4 harmed) hpast) (by omega)
+
 /-! ### the former drift of re-armed timers -/
 
 /-- a call made at 1 ns whose deadline is one clamp + 10 ms away; the dispatch is polled when the first timer fires
@@ -194,6 +264,59 @@ theorem C05_rearm_late_witness_fixed :
     (monC05 (trace (initSys 1 1 1 true) c05RearmLateOps)).ok = true ∧
     CEv.obs (.resolved 0 .deadline (clampNs + 10000000)) ∈ trace (initSys 1 1 1 true) c05RearmLateOps := by
   decide
+
+/-! ### the monitor form: false without the bound on the clock -/
+
+/-- the clock (ms) from which a one-year timeout lands in the top wheel level's slot 0 of the *next* rotation -/
+def c05WheelLagStartMs : Nat := 2 ^ 36 + 2 - clampNs / nsPerMs
+
+/-- call 0 (deadline 64 ms) times out at 64 ms — the only time the wheel clock (`elapsed`) ever moves: it stays at 64;
+≈ 430 days later call 1 is made with a deadline two years away (its timer is armed with the one-year clamp: tick
+`2^36 + 2` ms) and call 2 with a deadline 5 ms away; 5 ms later the dispatch is polled -/
+def c05WheelLagOps : List COp :=
+  [.call 0 (64 * nsPerMs) ⟨1, .given 1, true⟩ 1, .pollCall 0, .pollDispatch, .advance (64 * nsPerMs), .pollDispatch,
+   .pollCall 0, .advance ((c05WheelLagStartMs - 64) * nsPerMs),
+   .call 0 (c05WheelLagStartMs * nsPerMs + 2 * clampNs) ⟨1, .given 1, true⟩ 2, .pollCall 1, .pollDispatch,
+   .call 0 ((c05WheelLagStartMs + 5) * nsPerMs) ⟨1, .given 1, true⟩ 3, .pollCall 2, .pollDispatch,
+   .advance (5 * nsPerMs), .pollDispatch, .pollCall 2]
+
+set_option maxRecDepth 1000000 in
+/-- **Finding (tarpc-level consequence of the timer-wheel defect `DelayQ.C05_delayq_late_witness` and of the lag of the
+wheel clock, F9): beyond `2^35` ms a short deadline can go unenforced for years.**  A client whose timer wheel last
+advanced within its first 12 days (one early timeout; every later request completed in time, and only an *expiring* timer
+moves `wheel.elapsed`) is, after ≈ 430 days (`2^36 ms − 1 year`), asked for a call with a deadline at least a year away.
+The clamped timer (tick `2^36 + 2` ms) passes `DelayQueue::insert`'s range check (`when − elapsed ≤ 2^36 − 1`, `elapsed =
+64`) and is filed in slot 0 of the top wheel level — one rotation ahead.  From then on `Level::next_expiration`, which
+starts its search at the slot of `elapsed` *inclusive*, takes that entry for the wheel's next expiration: a call with a
+5 ms deadline made next is not failed when the dispatch is polled at its deadline (nothing is yielded, the `Sleep` is
+re-armed for `2^36 + 34·2^30` ms ≈ 3.3 years); the full C05 monitor rejects the trace.  The script's clock is beyond the
+`2^35` ms for which the not-late theorems above are stated — it shows that their bound is not an artefact. -/
+theorem C05_wheel_lag_witness :
+    ¬ advSum c05WheelLagOps < 2 ^ 35 * nsPerMs ∧
+    (c05WheelLagOps.foldl applyOp (initSys 2 2 2 true)).now = (c05WheelLagStartMs + 5) * nsPerMs ∧
+    (c05WheelLagOps.foldl applyOp (initSys 2 2 2 true)).s.poisoned = false ∧
+    (c05WheelLagOps.foldl applyOp (initSys 2 2 2 true)).s.inflight.map (fun e => (e.id, e.ctx.deadline, e.remainder)) =
+      [(1, c05WheelLagStartMs * nsPerMs + 2 * clampNs, clampNs), (2, (c05WheelLagStartMs + 5) * nsPerMs, 0)] ∧
+    (c05WheelLagOps.foldl applyOp (initSys 2 2 2 true)).s.timers.nextFire = some ((2 ^ 36 + 34 * 2 ^ 30) * nsPerMs) ∧
+    (monC05 (trace (initSys 2 2 2 true) c05WheelLagOps)).ok = false := by
+  decide
+
+/-- **`C05_monitor_full_Statement` (all scripts, no bound on the clock) is false.** -/
+theorem C05_monitor_full_statement_false : ¬ C05_monitor_full_Statement := by
+  intro h
+  have := h 2 2 2 true c05WheelLagOps
+  rw [C05_wheel_lag_witness.2.2.2.2.2] at this
+  cases this
+
+/-- The monitor form with the bound on the clock under which the state-level theorems of this file hold.  Not proved:
+beyond `C05_dispatch_idle_not_late` / `C05_idle_deadline_tick` it needs the ownership coupling between the monitor's book
+and the in-flight table (a call that is awaiting, whose request was written and not answered, has its request in
+flight — C01 / C03 territory) for the third clause of `checkC05`, and the analogous coupling of `reads` for the second.
+No counterexample is known (the former one, `c05RearmLateOps`, is accepted since the exact due time is kept:
+`C05_rearm_late_witness_fixed`). -/
+def C05_monitor_bounded_Statement : Prop :=
+  ∀ (m bufCap tcap : Nat) (coupled : Bool) (ops : List COp), advSum ops < 2 ^ 35 * nsPerMs →
+    (monC05 (trace (initSys m bufCap tcap coupled) ops)).ok = true
 
 /-! ### non-vacuity -/
 
